@@ -23,6 +23,7 @@ def check(chk, thorough=False):
     chk.run('C12.d', 'R-FLOW', 'verdicts are fail-closed (= C03.c for BIB, C16.b for BCB); the verifier checks the actual target data (= C03.a)', lambda ob: (c03c(tree, ob, 'bib'), c16b(tree, ob), c03a(tree, ob, 'apply_bib'), c12_params(tree, ob)), floor=20)
     chk.run('C12.e', 'R-ITER', 'every security block of the bundle is visited: the loops are not invalidated by removal of accepted blocks', lambda ob: c12e(tree, ob), floor=2)
     chk.run('C12.g', 'R-FLOW', 'duplicate parameter / result ids are really detected: the id collections compared with their de-duplicated size are lists', lambda ob: c12g(tree, ob), floor=2)
+    chk.run('C12.h', 'R-ORDER', 'a verification key comes only from the symmetric store, or from a validated chain whose node id MATCHED the security source (= C03.d)', lambda ob: _c03d(tree, ob), floor=3)
     chk.run('C12.f', 'R-TYPE', 'the recorded deletion reason is a reason code (integer) on every path', lambda ob: c12f(tree, ob), floor=2)
 
 
@@ -81,6 +82,11 @@ def _type_code(tree, clsname):
                     if got is not None and isinstance(got['n'], ast.Constant):
                         return got['n'].value
     raise AnalysisError('type code of {} not found'.format(clsname))
+
+
+def _c03d(tree, ob):
+    from .c03 import c03d
+    return c03d(tree, ob)
 
 
 def c12_params(tree, ob):
